@@ -44,6 +44,9 @@ FORMS = {
     '.jacobian(g;a)': ('jac', 'var'),
     'loss:>[w b]': ('mgrad', 'multi'),
     '[w b]∂g': ('mjac', 'multi'),
+    # the same parameter named twice (every occurrence is bound and restored)
+    'loss:>[w w]': ('mgrad', 'multidup'),
+    '[w w]∂g': ('mjac', 'multidup'),
     # thorough only
     'p∇f': ('grad', 'lit'),
     '(∇f)(a)': ('grad', 'var'),
@@ -52,7 +55,7 @@ FORMS = {
     'loss:>[w b c]': ('mgrad', 'multi3'),
     '[w b c]∂g': ('mjac', 'multi3'),
 }
-QUICK_FORMS = ('f:>p', 'f:>a', 'a∇f', 'p∂g', '.jacobian(g;a)', 'loss:>[w b]', '[w b]∂g')
+QUICK_FORMS = ('f:>p', 'f:>a', 'a∇f', 'p∂g', '.jacobian(g;a)', 'loss:>[w b]', '[w b]∂g', 'loss:>[w w]', '[w w]∂g')
 
 # kind -> (literal, rank)
 KINDS = {
@@ -138,7 +141,7 @@ def scenario_texts(form, kind, body):
         call = 'f(a)'
     else:
         setup += ['w::' + lit, 'b::0.5'] + (['c::1.5'] if how == 'multi3' else [])
-        point = '[w b c]' if how == 'multi3' else '[w b]'
+        point = '[w b c]' if how == 'multi3' else '[w w]' if how == 'multidup' else '[w b]'
         call = 'f()'
     if form in ('f:>p', 'f:>a'):
         grad = 'f:>' + point
